@@ -219,7 +219,8 @@ def check_one(h, cfg_desc):
             f.append(Fail("nodes", "port-cells", f"node {i}: cells {sorted(ports.elements())} expected {sorted(want.elements())}"))
         if len(f) > 6:
             break
-    want_edges = Counter((s.node.idx, s.offset, d.node.idx, d.offset) for s, d in h.links())
+    # the links as the per-port queries report them (not `links()`, which the renderer itself iterates)
+    want_edges = store.port_links(h)
     if edges != want_edges:
         ga, wa = sorted(edges.elements()), sorted(want_edges.elements())
         f.append(Fail("edges", "edge-statements", f"drawn-only={[x for x in ga if x not in wa][:3]} missing={[x for x in wa if x not in ga][:3]}"))
@@ -333,7 +334,7 @@ def check_store(case) -> list[Fail]:
             lines = open(out, encoding="utf-8").read().splitlines()
             n_nodes = sum(1 for ln in lines if ln.startswith("node "))
             n_edges = sum(1 for ln in lines if ln.startswith("edge "))
-            n_links = sum(1 for _ in h.links())
+            n_links = sum(store.port_links(h).values())
             if n_nodes != len(h):
                 f.append(Fail("store_dot", "graphviz-node-count", f"graphviz reads {n_nodes} nodes, the HUGR has {len(h)}"))
             if n_edges != n_links:
